@@ -16,6 +16,7 @@ from ..rules import guards, forward, fintab
 
 
 EXTRAS = [
+    lambda rep, fb, tier: __import__("vf.rules.binding", fromlist=["x"]).rule_exception_unthrown(rep, fb),
     lambda rep, fb, tier: guards.rule_getitem_at(rep, fb),
     lambda rep, fb, tier: guards.rule_invariants(rep, fb),
     lambda rep, fb, tier: fintab.rule_rangeslice(rep, fb),
